@@ -1633,3 +1633,41 @@ fn verif_reset_statics() {
     clock::set(1, 0, 0);
     clock::set(2, 0, 0);
 }
+
+/// The composed receive step for an echo reply that names an AWAITED in-window probe but carries
+/// another tracer's non-zero identifier: the identifier gate is wired in `recv_response`, so
+/// nothing changes (the probe stays Awaited, bookkeeping untouched).
+#[kani::proof]
+#[kani::unwind(2)]
+fn c03_recv_response_foreign_id_ignored() {
+    let mut cfg = any_strategy_config(false);
+    cfg.protocol = Protocol::Icmp;
+    kani::assume(accepted(&cfg));
+    let mut st = any_state_at(cfg, 33434, 3);
+    kani::assume(inv_scalar(&st));
+    let awaited = any_probe_at(&st, 1);
+    kani::assume(awaited.ttl.0 >= cfg.first_ttl.0 && awaited.ttl.0 < st.ttl.0);
+    st.buffer[1] = ProbeStatus::Awaited(awaited.clone());
+    let foreign: u16 = kani::any();
+    kani::assume(foreign != 0 && foreign != cfg.trace_identifier.0);
+    let (recv, _, _) = any_time();
+    let data = ResponseData::new(recv, any_ip(false), ProtocolResponse::Icmp(IcmpProtocolResponse::new(foreign, 33435, None)));
+    let mut net = SymNet::new([SendOutcome::Ok, SendOutcome::Ok, SendOutcome::Ok]);
+    net.recv = Some(Ok(Some(Response::EchoReply(data, IcmpPacketCode(0)))));
+    let strategy = Strategy::new(&cfg, noop_publish);
+    let (tf0, mr0, tt0) = (st.target_found, st.max_received_ttl, st.target_ttl);
+    let res = strategy.recv_response(&mut net, &mut st);
+    assert!(res.is_ok());
+    assert!(awaited_is(&st.buffer[1], &awaited), "another tracer's response never completes a probe");
+    assert!(st.target_found == tf0 && st.max_received_ttl == mr0 && st.target_ttl == tt0 && st.received_time.is_none());
+    kani::cover!(true, "reachable");
+    std::mem::forget(st);
+    std::mem::forget(net);
+    std::mem::forget(res);
+}
+
+// (A third gate harness - a UDP/TCP quotation with a foreign port for an AWAITED probe, i.e. the
+// `validate` call as wired in `recv_response` - needs unwind >= 5 for the address comparison inside
+// `validate` and then explores the slot clone loops 5 deep: solver out of memory at 24 GB.  That
+// `recv_response` calls `validate` before anything else is therefore by reading; what `validate`
+// decides is c03_recv_decision_* / c02_identity_*.)
